@@ -74,6 +74,33 @@ pub fn data(kind: &str, n: usize, r: &mut StdRng) -> Vec<u8> {
             let b = if h == 0 { r.gen() } else { v[i % h] };
             v.push(b);
         }
+    } else if kind == "wrapruns" {
+        // runs and repeats whose boundaries fall on or next to multiples of 32768 (dictionary wrap)
+        let mut next_mark = 32768usize;
+        while v.len() < n {
+            let to_mark = next_mark.saturating_sub(v.len());
+            if to_mark <= 2 + (n % 3) {
+                // finish the filler with a byte different from the run byte, then a run across / at the mark
+                let delta = [0usize, 1, 2][r.gen_range(0..3)];
+                while v.len() + delta < next_mark && v.len() < n {
+                    v.push(r.gen_range(0..200));
+                }
+                let c: u8 = r.gen_range(200..=255);
+                let len = r.gen_range(3..40);
+                for _ in 0..len {
+                    if v.len() < n { v.push(c); }
+                }
+                next_mark += 32768;
+            } else {
+                let len = r.gen_range(1..400).min(to_mark.saturating_sub(2).max(1)).min(n - v.len());
+                if r.gen_range(0..3) == 0 {
+                    let b: u8 = r.gen_range(0..200);
+                    for _ in 0..len { v.push(b); }
+                } else {
+                    for _ in 0..len { v.push(r.gen_range(0..200)); }
+                }
+            }
+        }
     } else if kind == "runs" {
         while v.len() < n {
             let b: u8 = r.gen();
